@@ -347,7 +347,11 @@ pub(crate) fn rfc1071_checksum(bytes: &[u8]) -> u16 {
             sum += bytes[i + 1] as u32;
         }
     }
-    !((sum >> 16) + sum) as u16
+    // fold the carries back in until none is left (the first fold may produce another one)
+    while (sum >> 16) != 0 {
+        sum = (sum & 0xffff) + (sum >> 16);
+    }
+    !(sum as u16)
 }
 
 /// Returns [`true`] if the address appears to be globally routable.
